@@ -54,6 +54,24 @@ def outcome_async(make_coro: Callable[[], Any]) -> tuple:
     return outcome_of(lambda: run_async(make_coro()))
 
 
+def api_of(case: Any) -> str:
+    """Which of the two render APIs a case goes through: its own "api" field, else one case in three (by content) is async."""
+    import json
+    import zlib
+
+    if isinstance(case, dict) and case.get("api") in ("sync", "async"):
+        return case["api"]
+    text = json.dumps(case, sort_keys=True, ensure_ascii=True, default=repr)
+    return "async" if zlib.crc32(text.encode()) % 3 == 0 else "sync"
+
+
+def render(case: Any, make_template: Callable[[], Any], **data: Any) -> tuple:
+    """Outcome of rendering through the API the case is assigned to (the properties speak of renders, not of one API)."""
+    if api_of(case) == "async":
+        return outcome_async(lambda: make_template().render_async(**data))
+    return outcome_of(lambda: make_template().render(**data))
+
+
 def short(o: tuple) -> tuple:
     """Comparable form of an outcome (drops exception objects/messages)."""
     if o[0] == "ok":
